@@ -594,6 +594,13 @@ def run_copy_case(case, ctx):
     va = np.array(arr.get_samples(64))
     if np.array_equal(va[0], va[1]) or np.array_equal(va[1], va[2]):
         obs.fail('array_antennas_share_noise', '')
+    # the two polarisations of the shared background draw different noise as well
+    arr2 = AN.MultiAntennaArray(num_antennas=2, sample_rate=1e6, num_pols=2, delays=[0, 1], seed=case['seed'])
+    for b in arr2.bg_streams:
+        b.add_noise(0, 1)
+    vb = np.array(arr2.get_samples(64))
+    if np.array_equal(vb[0, 0], vb[0, 1]):
+        obs.fail('background_polarisations_share_noise', '')
     f1 = stg.Frame(fchans=8, tchans=4, df=2.0, dt=1.0, seed=case['seed'], t_start=0.0)
     f2 = stg.Frame(fchans=8, tchans=4, df=2.0, dt=1.0, seed=case['seed'], t_start=0.0)
     f3 = stg.Frame(fchans=8, tchans=4, df=2.0, dt=1.0, seed=case['seed'] + 1, t_start=0.0)
